@@ -199,6 +199,9 @@ class ClsNode(Node):
             out.extend([f.name, *f.in_names, f.out_name, f.name + 'x', f.name.upper()])
         return out
 
+    def own_groups(self):
+        return [g for g in (list(dict.fromkeys([*f.in_names, f.name])) for f in self.declared if f.init) if len(g) >= 2]
+
     def render(self) -> str:
         o = ', '.join(f"{k}={v!r}" for (k, v) in self.opts.items())
         lines = [f"class {self.name}(PaneBase{', ' + o if o else ''}):"]
